@@ -477,6 +477,8 @@ def run(ctx: common.Ctx):
         if isinstance(i, int) and i % 20 == 0:
             ctx.sample({"batch": "transformations", "program": i, "ops": sorted(set(p.ops))[:10],
                         "pre_tagged": tagger is not None})
+    from . import c05_idempotence
+    c05_idempotence.check_idempotence(ctx, T, fingerprint)
     ctx.note_batch("transformations-vs-reference", cases, dis, exhaustive=False, programs=N, scenarios=len(scen), applications=per,
                    pipelines=pipelines, not_supported=unsupported)
     # verified/structural checkers of the Lean heap model on the REAL inputs and results
